@@ -276,6 +276,8 @@ def worker(job):
                 o = entries[nm]
                 _compile(o.build(), {"language": "C", **o.options})
         objs = _VARIANTS[job["entry"]]() if hist == "same-signature-variant" else e.build()
+        if not objs:
+            raise RuntimeError("entry builds no UFL objects (nothing to compile)")
         import ffcx.naming
         import ufl
         out["sig"] = ffcx.naming.compute_signature(objs, "")
@@ -488,18 +490,26 @@ def _run_job(job, seed, scratch, timeout=900):
     env["XDG_CACHE_HOME"] = str(scratch / "xdg")
     env["OMP_NUM_THREADS"] = env["OPENBLAS_NUM_THREADS"] = "1"
     t0 = time.time()
-    try:
-        p = subprocess.run([PY, "-m", "harness.props.c12", "--worker", json.dumps(job)], cwd=str(scratch / "cwd"),
-                           env=env, capture_output=True, text=True, timeout=timeout)
-    except subprocess.TimeoutExpired:
-        return {"job": job, "seed": seed, "error": "timeout", "results": [], "secs": time.time() - t0}
-    res = None
-    for line in reversed(p.stdout.splitlines()):
-        if line.startswith("C12RESULT "):
-            res = json.loads(line[len("C12RESULT "):])
+    res, err = None, ""
+    for attempt in range(3):
+        try:
+            p = subprocess.run([PY, "-m", "harness.props.c12", "--worker", json.dumps(job)], cwd=str(scratch / "cwd"),
+                               env=env, capture_output=True, text=True, timeout=timeout)
+        except subprocess.TimeoutExpired:
+            err = "timeout"
+            continue
+        for line in reversed(p.stdout.splitlines()):
+            if line.startswith("C12RESULT "):
+                res = json.loads(line[len("C12RESULT "):])
+                break
+        if res is not None:
             break
+        # the interpreter died before the worker could report (import failure, OOM kill, ...): not an observation
+        # about FFCx' determinism -> retry, and give up as an infrastructure error if it persists
+        err = f"rc={p.returncode}: {p.stderr[-1200:]}"
+        time.sleep(1.0 + attempt)
     if res is None:
-        res = {"job": job, "results": [], "error": f"worker crashed rc={p.returncode}: {p.stderr[-400:]}"}
+        res = {"job": job, "results": [], "crash": err}
     res["seed"] = seed
     res["secs"] = time.time() - t0
     return res
@@ -509,7 +519,7 @@ def plan(tier, seed):
     """(entry names, jobs). A job = ({entry, lang, hist, ...}, PYTHONHASHSEED).
 
     quick:    QUICK_ENTRIES; C: fresh with seeds 0..3, the four histories with seeds 0,1; numba: fresh 0,1, histories 0.
-    thorough: every corpus entry + 16 generated forms (VERIF_SEED); C: fresh with seeds 0..31 (demos 0..15), histories
+    thorough: every corpus entry + 16 generated forms (VERIF_SEED); C: fresh with seeds 0..31 (demos 0..7), histories
               with seeds 0,1 (demos 0); numba: fresh 0..3 (demos 0,1), histories with seed 0 (not for demos).
     `twice` (compile the same objects a second time in the same process) rides on every fresh job.
     """
@@ -530,7 +540,7 @@ def plan(tier, seed):
         def seeds(nm, lang, fresh):
             demo = nm.startswith("demo_")
             if lang == "C":
-                return list(range(16 if demo else 32)) if fresh else ([0] if demo else [0, 1])
+                return list(range(8 if demo else 32)) if fresh else ([0] if demo else [0, 1])
             return list(range(2 if demo else 4)) if fresh else ([] if demo else [0])
     for nm in names:
         for lang in ("C", "numba"):
@@ -561,6 +571,11 @@ def differential(chk, tier, seed, only=None):
             results = list(ex.map(lambda js: _run_job(js[0], js[1], scratch), jobs))
         chk.notes["differential_wall_s"] = round(time.time() - t0, 1)
         chk.notes["subprocesses"] = len(jobs)
+        crashed = [r for r in results if r.get("crash")]
+        if crashed:
+            raise RuntimeError(f"{len(crashed)} worker process(es) died before reporting, after 3 attempts "
+                               f"(infrastructure, not a C12 observation); first: {crashed[0]['job']} seed {crashed[0]['seed']}: "
+                               f"{crashed[0]['crash'][-800:]}")
         _compare(chk, names, results, scratch / "out")
     finally:
         shutil.rmtree(scratch, ignore_errors=True)
